@@ -404,7 +404,12 @@ impl<'a> ParserState<'a> {
     /// - the function shouldn't be called while pos == 0, but this case would behave like pos==1
     pub(crate) fn get_line_offset(&self) -> u32 {
         if self.token_cursor.pos > 1 && self.token_cursor.pos < self.token_cursor.tokens.len() {
-            let prev_line = self.token_cursor.tokens[self.token_cursor.pos - 2].line;
+            let prev_token = &self.token_cursor.tokens[self.token_cursor.pos - 2];
+            let mut prev_line = prev_token.line;
+            if prev_token.ttype == A2lTokenType::Comment {
+                // a comment token carries the line on which it starts: the offset must be measured from its last line
+                prev_line += self.get_token_text(prev_token).matches('\n').count() as u32;
+            }
             let prev_fileid = self.token_cursor.tokens[self.token_cursor.pos - 2].fileid;
             let cur_line = self.token_cursor.tokens[self.token_cursor.pos - 1].line;
             let cur_fileid = self.token_cursor.tokens[self.token_cursor.pos - 1].fileid;
